@@ -19,8 +19,10 @@ CLAIMED = {
              ref="DESIGN.md 4 (C12)", note=TRUST, tech=TECH),
  "C06": dict(text="Seeded search over (n 0..96 incl. n<threads and n not divisible, key multisets: all-equal, 2-4 keys, sorted/reversed runs, random; POD and heap-owning ledgered element types; threads 1..6 and 16, default thread count via the hardware_concurrency shim; exact and sampling splitting, oversampling 1..4; stable/unstable) x thread interleavings through the barrier phases; oracles: == std::stable_sort (stable), sorted permutation (unstable), live-instance ledger unchanged at return (every temporary copy destroyed), no double destroy / use of a destroyed element, termination (deadlock, step bound), ASan, TSan. Sampling, not proof.",
              ref="DESIGN.md 4 (C06)", note=TRUST, tech=TECH),
+ "C07": dict(text="Seeded search over (1-6 sorted sequences with empty ones anywhere, lengths 0..40, key universe 1..6, one dominant sequence; size = total / 0 / random; threads 1..8 and 32 incl. more threads than elements; exact and sampling splitting, oversampling 1..4; all four merge algorithms; stable/unstable; sentinel entry points with a real sentinel element; the six public entry points with force_parallel or randomised minimal_k/minimal_n) x interleavings of the fork/join workers; oracles against an independent reference (stable sort of (value, sequence, position) triples): output values, exact origins for stable variants, return == target+size, guard cells behind size untouched, input begins advanced past exactly the contributed elements, one writing thread per output slot (assignment log), ASan, TSan. Sampling, not proof.",
+             ref="DESIGN.md 4 (C07)", note=TRUST, tech=TECH),
 }
-PENDING = ["C02", "C04", "C07", "C16", "C17"]
+PENDING = ["C02", "C04", "C16", "C17"]
 NA = {
  "C01":"pure function of a single-threaded call history: no schedule, clock, fault or environment seam in the statement (model-based testing, not simulation) - DESIGN.md 5",
  "C03":"sequential string sorts are pure functions of (strings, memory limit); nothing for a scheduler or fault injector to own - DESIGN.md 5",
